@@ -174,7 +174,33 @@ def gen_error(rng):
     return sl.dyadic(rng, 4, 4, positive=True, nonzero=True)
 
 
-def gen_table(rng):
+# the property is scale-free: every quantity has its own magnitude (powers of two keep the requests exact in doubles)
+POW2_SCALES = [2.0 ** -30, 2.0 ** -40, 2.0 ** -50, 2.0 ** 20]
+
+
+def gen_table(rng, scales=None):
+    tab = _gen_table(rng)
+    mode = rng.random()
+    common = rng.choice(POW2_SCALES)
+    out = []
+    for qj in tab:
+        f = 1.0 if mode < 0.6 else (common if mode < 0.75 else rng.choice(POW2_SCALES + [1.0, 1.0]))
+        if scales is not None:
+            scales.append(f)
+        if f != 1.0:
+            if qj[0] in ("single", "derived"):
+                qj = [qj[0], hx(fx(qj[1]) * f), None if qj[2] is None else hx(fx(qj[2]) * f)]
+            elif qj[0] == "repeated":
+                xs = [fx(h) * f for h in qj[1]]
+                e = qj[2]
+                e = None if e is None else ([hx(fx(h) * f) for h in e] if isinstance(e, list) else hx(fx(e) * f))
+                ok = qj[3] in ("list", "ndarray", "mixed", "npscalars") or all(sl.representable(x, sl.DTYPES[qj[3]]) for x in xs)
+                qj = ["repeated", [hx(x) for x in xs], e, qj[3] if ok else "ndarray"]
+        out.append(qj)
+    return out
+
+
+def _gen_table(rng):
     n = rng.choice([2, 3, 3, 4, 4, 5])
     common_len = rng.choice([2, 3, 3, 4, 5, 6, 8])
     table, plain_arrays = [], []
@@ -344,7 +370,9 @@ def gen_op(rng, m):
         if not m.measured(a):
             return ["reset"]
         u = rng.random()
-        e = 0.0 if u < 0.12 else (-gen_error(rng) if u < 0.22 else gen_error(rng))
+        f = getattr(m, "scales", None)
+        f = f[a] if f else 1.0
+        e = 0.0 if u < 0.12 else (-gen_error(rng) * f if u < 0.22 else gen_error(rng) * f)
         return ["set_err", a, hx(e)]
     if r < 0.145:
         meas = [i for i in range(m.n) if m.measured(i)]
@@ -400,8 +428,10 @@ def gen_op(rng, m):
 
 
 def gen_case(rng):
-    table = gen_table(rng)
+    scales = []
+    table = gen_table(rng, scales)
     m = Mirror(table)
+    m.scales = scales
     ops = []
     for _ in range(rng.randrange(6, 30)):
         op = gen_op(rng, m)
@@ -549,6 +579,11 @@ def correspondence(ctx):
                                 for d in (desc[op[2]], desc[op[3]])):
                         res.count("numpy-or-int number with a zero-uncertainty operand")
             for d in desc:
+                sd = fx(d[2]) if d[0] == "repeated" else (fx(d[1]) if d[0] in ("single", "derived") else 0.0)
+                if 0 < sd <= 1e-8:
+                    res.count("quantity:std in (0, 1e-8]")
+                elif sd >= 1e5:
+                    res.count("quantity:std >= 1e5")
                 res.count("quantity:" + d[0] + (":zero-std" if (d[0] == "repeated" and fx(d[2]) == 0) or
                                                  (d[0] == "single" and fx(d[1]) == 0) else ""))
         if nontrivial(hist):
@@ -560,7 +595,7 @@ def correspondence(ctx):
     res.rule = ("random call histories (6-29 calls; set_correlation / set_covariance in function and method form, both argument "
                 "orders, explicit / omitted / non-numeric number, the number as Python float / int / bool or numpy float64 / float32 / "
                 "int64 / int32 scalar of either sign and zero, getters, reset_correlations, .error and .value writes) over 2-5 "
-                "quantities (single with / without error, repeated plain / collinear / with uncertainties / zero spread, calculated, "
+                "quantities of individual magnitudes (x 2^-50 ... 2^20; single with / without error, repeated plain / collinear / with uncertainties / zero spread, calculated, "
                 "constant); ~70% of set requests aimed at acceptance, boundary requests exact in doubles, one ulp inside / outside; "
                 "after every call the outcome and the full matrix of q.get_correlation / q.get_covariance are compared with "
                 "Model.Corr.step (1e-9 relative). non-trivial = a history with at least one accepted and one rejected set request "
